@@ -480,14 +480,19 @@ class Weaver:
         code = ''.join(ch if im[i] else ' ' for i, ch in enumerate(inner))
         consts = re.findall(r'const\s+(\w+)\s*=\s*([^;]+);', code)
         bits_ty = mm.group(1)
-        lines = ['impl %s {' % it['name']]
+        N = it['name']
+        with open(os.path.join(os.path.dirname(self.prelude), 'bitflags_model.rs.tmpl'), encoding='utf-8') as tf:
+            tmpl = tf.read()
+        lines = [tmpl.replace('@N@', N).replace('@T@', bits_ty).replace('@A@', N.lower() + '_all_bits')]
+        lines.append('impl %s {' % N)
         for (n, e) in consts:
             e2 = re.sub(r'\bSelf::(\w+)\.bits\(\)', r'Self::\1.bits', e.strip())
             lines.append('    pub const %s: %s = %s { bits: %s };' % (n, it['name'], it['name'], e2))
         lines.append('}')
         # spec-level mirror of all(): OR of every constant
-        allexpr = ' | '.join('(%s)' % re.sub(r'\bSelf::(\w+)\.bits\(\)', r'%s::\1.bits' % it['name'], e.strip()) for (_n, e) in consts) or '0'
+        allexpr = ' | '.join('%s::%s.bits' % (it['name'], n) for (n, _e) in consts) or '0'
         lines.append('pub open spec fn %s_all_bits() -> %s { %s }' % (it['name'].lower(), bits_ty, '(' + allexpr + ') as ' + bits_ty))
+        lines.append('pub fn %s_all_bits_exec() -> (r: %s) ensures r == %s_all_bits() { %s }' % (it['name'].lower(), bits_ty, it['name'].lower(), allexpr))
         self.emit('\n'.join(lines), ('repo', it['file'], blk['line_first']))
         self.funcs.append(dict(kind='bitflags', name=it['name'], file=it['file'], lines=[blk['line_first'], blk['line_last']],
                                consts=[c[0] for c in consts]))
